@@ -466,14 +466,43 @@ static bool exprHasFPArith(const z3::expr &e, std::set<unsigned> &seen, int &bud
     for (unsigned i = 0; i < e.num_args(); i++) if (exprHasFPArith(e.arg(i), seen, budget)) return true;
     return false;
 }
+// "heavy" floating point: anything that needs bit-level arithmetic circuits (not mere comparisons)
+static bool exprHeavyFP(const z3::expr &e, std::set<unsigned> &seen, int &budget) {
+    if (!e.is_app() || budget-- <= 0) return false;
+    if (!seen.insert(e.id()).second) return false;
+    switch (e.decl().decl_kind()) {
+    case Z3_OP_FPA_ADD: case Z3_OP_FPA_SUB: case Z3_OP_FPA_MUL: case Z3_OP_FPA_DIV: case Z3_OP_FPA_FMA: case Z3_OP_FPA_SQRT: case Z3_OP_FPA_REM:
+    case Z3_OP_FPA_ROUND_TO_INTEGRAL: case Z3_OP_FPA_TO_UBV: case Z3_OP_FPA_TO_SBV: case Z3_OP_FPA_TO_FP: case Z3_OP_FPA_TO_FP_UNSIGNED:
+        return true;
+    default: break;
+    }
+    for (unsigned i = 0; i < e.num_args(); i++) if (exprHeavyFP(e.arg(i), seen, budget)) return true;
+    return false;
+}
+static bool isHeavy(const z3::expr &e) { std::set<unsigned> seen; int b = 5000; return exprHeavyFP(e, seen, b); }
 void Executor::addPC(State &s, const z3::expr &c) {
     z3::expr sc = c.simplify();
     if (sc.is_true()) return;
-    if (!s.pcHasFP) { std::set<unsigned> seen; int b = 2000; if (exprHasFPArith(sc, seen, b)) s.pcHasFP = true; }
+    if (!s.pcHasFP && isHeavy(sc)) s.pcHasFP = true;
     s.pc.push_back(sc);
 }
 z3::check_result Executor::check(State &s, const z3::expr &extra, unsigned timeoutMs, z3::model *outModel) {
     auto t = std::chrono::steady_clock::now();
+    if (s.pcHasFP || isHeavy(extra)) {
+        // one-shot: bit-blast the whole conjunction (z3's incremental core is far slower on FP arithmetic)
+        z3::tactic tac(*ZC, "qffpbv");
+        z3::solver one = tac.mk_solver();
+        z3::params p(*ZC); p.set("timeout", timeoutMs); one.set(p);
+        for (auto &c : s.pc) one.add(c);
+        one.add(extra);
+        z3::check_result r;
+        try { r = one.check(); } catch (z3::exception &e) { r = z3::unknown; }
+        if (r == z3::sat && outModel) *outModel = one.get_model();
+        qTotal++; qHeavy++; if (r == z3::sat) qSat++; else if (r == z3::unsat) qUnsat++; else qUnknown++;
+        double dt = std::chrono::duration<double>(std::chrono::steady_clock::now() - t).count();
+        solverS += dt; if (dt > slowestQ) slowestQ = dt;
+        return r;
+    }
     // sync solver stack with path condition
     size_t k = 0;
     while (k < solverStackIds.size() && k < s.pc.size() && solverStackIds[k] == s.pc[k].id()) k++;
